@@ -91,8 +91,11 @@ where
     fn load(self, el: &crate::renderer::types::Element) {
         // safe to construct SendWrapper here, because it will only run in the browser
         // so it will always be accessed or dropped from the main thread
+        #[cfg(not(leptos_verif))]
         self.0
             .set(Some(SendWrapper::new(el.clone().unchecked_into())));
+        #[cfg(leptos_verif)]
+        let _ = el;
     }
 }
 
